@@ -1,7 +1,7 @@
 (* Proofs/NameProofs.v — the owned `name` table: owned::NameTable::write, then NameTable::read and
    owned::NameTable::try_from give the records and language tags back. *)
 From AV Require Import Base.Prelude Base.Lemmas Gen.ReaderPrims Model.Reader Model.ReaderExt
-  Proofs.ReaderProofs Proofs.EncodeProofs Model.Layout Proofs.LayoutProofs Proofs.RecordProofs
+  Proofs.ReaderProofs Proofs.EncodeProofs Model.TableLayout Proofs.TableLayoutProofs Proofs.RecordProofs
   Gen.TableLayouts Model.Tables Proofs.RefusalProofs.
 From Coq Require Import ZifyBool ZifyNat.
 Ltac Zify.zify_post_hook ::= Z.div_mod_to_equations.
